@@ -37,6 +37,9 @@ def _settings():
         for inc in ((True, False), (False, True), (True, True)):
             for tagger in ((None, "single", "list") if field else (None,)):
                 out.append((field, inc[0], inc[1], tagger))
+                if tagger is None and inc[0]:
+                    # Sub1 is an ABSTRACT intermediate class (ABC with an abstract method, no tag of its own); Sub3 below it is concrete
+                    out.append((field, inc[0], inc[1], tagger, "abstract-mid"))
     return out
 
 
@@ -64,7 +67,8 @@ class Fam:
     def __init__(self, wiring, st):
         from mashumaro.codecs.basic import BasicDecoder
         self.wiring, self.st = wiring, st
-        field, subt, supt, tagger = st
+        field, subt, supt, tagger = st[:4]
+        self.abstract_mid = len(st) > 4
         self.ctx = space.Ctx()
         ns = self.ctx.ns
         ns["ClassVar"] = __import__("typing").ClassVar
@@ -102,7 +106,13 @@ class Fam:
 
     def define(self, name):
         fields = "".join(f"    {f}: int\n" for f in FIELDS[name] if f not in FIELDS[PARENT[name]])
-        self.ctx.run(f"@dataclass\nclass {name}({PARENT[name]}):\n    t: ClassVar[str] = {TAG[name]!r}\n{fields}")
+        if self.abstract_mid and name == "Sub1":
+            self.ctx.ns["abc"] = __import__("abc")
+            self.ctx.run(f"@dataclass\nclass Sub1(Base, abc.ABC):\n{fields}    @abc.abstractmethod\n    def must(self): ...\n")
+        elif self.abstract_mid and name == "Sub3":
+            self.ctx.run(f"@dataclass\nclass Sub3(Sub1):\n    t: ClassVar[str] = {TAG[name]!r}\n{fields}    def must(self): return 1\n")
+        else:
+            self.ctx.run(f"@dataclass\nclass {name}({PARENT[name]}):\n    t: ClassVar[str] = {TAG[name]!r}\n{fields}")
         self.defined.append(name)
 
     def decode(self, d, via=None, fmt=False):
@@ -165,7 +175,8 @@ class _deadline:
 class Model:
     def __init__(self, wiring, st):
         self.wiring, self.st = wiring, st
-        field, subt, supt, tagger = st
+        field, subt, supt, tagger = st[:4]
+        self.abstract_mid = len(st) > 4
         ops = [("define", s) for s in SUBS]
         if field:
             all_tags = []
@@ -174,7 +185,7 @@ class Model:
             ops += [("decode", t) for t in all_tags] + [("decode", "<missing>"), ("decode", "<unknown>")]
         else:
             ops += [("shape", s) for s in SHAPES]
-        if wiring in ("config", "configfmt"):
+        if wiring in ("config", "configfmt") and not self.abstract_mid:
             ops += [("via", "Sub1")]
         if wiring == "configfmt":
             # the same inputs through the format decoder (from_json), in any order with the from_dict ones
@@ -236,7 +247,8 @@ class Model:
 
     # ---- oracle computed from the history alone ------------------------------------------
     def expected(self, h, op):
-        field, subt, supt, tagger = self.st
+        field, subt, supt, tagger = self.st[:4]
+        abstract = {"Sub1"} if self.abstract_mid else set()      # cannot be instantiated and carries no tag of its own
         if op[0] in ("fdecode", "fshape", "fvia"):
             op = (op[0][1:], op[1])      # the format decoder must pick the same class
         if self.wiring in ("config", "configfmt"):
@@ -263,14 +275,14 @@ class Model:
                 return ("exc", "MissingDiscriminatorError")
             hit = None
             for c in eligible:
-                if op[1] in tags_of(c, tagger):
+                if c not in abstract and op[1] in tags_of(c, tagger):
                     hit = c      # tags are unique in this hierarchy
             if hit is None:
                 return ("exc", "SuitableVariantNotFoundError")
             return inst(hit, FULL)
         d = SHAPES[op[1]]
         for c in eligible:
-            if all(fl in d for fl in FIELDS[c]):
+            if c not in abstract and all(fl in d for fl in FIELDS[c]):
                 return inst(c, d)
         return ("exc", "SuitableVariantNotFoundError")
 
